@@ -181,14 +181,15 @@ Proof. exact (ok_astb_ok s0 a). Qed.
 
 (** ** [to_expr] *)
 
-(** [to_expr u] succeeds without changing the manager; its text is the text
-    of a syntax tree [a] whose evaluation returns the very reference [u]
-    (AST level) *)
+(** [to_expr u] succeeds without changing the manager (it creates no node:
+    for every value of [max_nodes]); its text is the text of a syntax tree
+    [a] whose evaluation — with an unbounded table — returns the very
+    reference [u] (AST level) *)
 Theorem C05_to_expr_roundtrip_ast s u :
-  Inv s → valid s u → last_len s = None → max_nodes s = None →
+  Inv s → valid s u → last_len s = None →
   ∃ a, to_expr_ast (S (S (nvars s))) u s = (Ok a, s) ∧
        to_expr u s = (Ok (expr_text a), s) ∧
-       ∀ r s', eval_ast a s = (r, s') →
+       ∀ r s', max_nodes s = None → eval_ast a s = (r, s') →
          r = Ok u ∧ Inv s' ∧ extends s s' ∧ last_len s' = None ∧ max_nodes s' = None.
 Proof. exact (to_expr_roundtrip_ast s u). Qed.
 
@@ -198,11 +199,11 @@ Proof. exact (to_expr_roundtrip_ast s u). Qed.
     part of the model: [te_spellings a] lists the lexemes of
     [expr_text a].) *)
 Theorem C05_to_expr_roundtrip s u :
-  Inv s → valid s u → last_len s = None → max_nodes s = None →
+  Inv s → valid s u → last_len s = None →
   ∃ a, to_expr u s = (Ok (expr_text a), s) ∧
        lex (te_spellings a) = Some (te_tokens a) ∧
        parse code_prec (te_tokens a) = Some a ∧
-       ∀ r s', add_expr lex_alias reserved_words code_prec (te_spellings a) s = (r, s') →
+       ∀ r s', max_nodes s = None → add_expr lex_alias reserved_words code_prec (te_spellings a) s = (r, s') →
          r = Ok u ∧ Inv s' ∧ extends s s' ∧ last_len s' = None ∧ max_nodes s' = None.
 Proof. exact (to_expr_roundtrip s u). Qed.
 
@@ -210,9 +211,9 @@ Proof. exact (to_expr_roundtrip s u). Qed.
     splitter [split_formula] (blanks separate; parentheses and commas stand
     alone): [add_expr_ (split (to_expr u))] returns [u]. *)
 Theorem C05_to_expr_roundtrip_text s u :
-  Inv s → valid s u → last_len s = None → max_nodes s = None →
+  Inv s → valid s u → last_len s = None →
   ∃ txt, to_expr u s = (Ok txt, s) ∧
-    ∀ r s', add_expr_ (split_formula txt) s = (r, s') →
+    ∀ r s', max_nodes s = None → add_expr_ (split_formula txt) s = (r, s') →
       r = Ok u ∧ Inv s' ∧ extends s s' ∧ last_len s' = None ∧ max_nodes s' = None.
 Proof. exact (to_expr_roundtrip_text s u). Qed.
 
